@@ -145,6 +145,18 @@ def membership(ctx, prog):
                 else:
                     ctx.violation(rule, body.id, "clients." + name, "group membership is changed outside add_client / remove_client", site=body.loc(t.get("sp")))
     ctx.floor(rule, "membership mutations", n, 2)
+    # add_client pushes without looking (a repeated SUBSCRIBE lists the member twice), so leaving must remove EVERY
+    # occurrence: Vec::retain(!=) — or add_client must refuse duplicates
+    rc = prog.one(r"^router::shared_subs::SharedGroup::remove_client$")
+    ac = prog.one(r"^router::shared_subs::SharedGroup::add_client$")
+    retains = [t for bb, t in rc.calls() if re.search(r"Vec::<T, A>::retain(_mut)?$", callee_path(t)) and (receiver_fields(rc, t) or [None])[-1] == "clients" and not rc.is_cleanup(bb)]
+    dedup = [t for bb, t in ac.calls() if re.search(r"::contains$|Iterator::any$|Iterator::position$", callee_path(t)) and not ac.is_cleanup(bb)]
+    if retains or dedup:
+        ctx.ok(rule, rc.id, "a leaving member is removed completely (%s)" % ("clients.retain" if retains else "add_client refuses duplicates"), site=rc.fn_loc())
+    else:
+        ctx.violation(rule, rc.id, "member removed once only",
+                      "remove_client no longer removes every occurrence of the client while add_client can list a member more than once (repeated SUBSCRIBE): a stale entry keeps the turn and the group's messages are forwarded to nobody",
+                      site=rc.fn_loc())
     # removal sites drop empty groups
     sites = 0
     for body, bb, t in call_sites(prog, r"SharedGroup::remove_client$"):
